@@ -23,6 +23,7 @@ DECIDES = (
     "TranslationLink.transform returns the constructor's follower for the constructor's leader and leader' + (follower - leader) "
     "after a move; RotationLink turns the ORIGINAL follower, SymmetryLink mirrors the current leader with its own normal and origin; "
     "LinkBase.update stores the transform result as follower and nothing else (C17.LINK-ALGEBRA)."
+    ' mirror_matrix is a reflection (C17.MIRROR-MATRIX = C09.MIRROR-MATRIX); angle_between clips its cosine on both sides (C17.TRIG-DOMAIN); no constructor parameter of clamps/links/point helpers is overwritten before it is read (C17.PARAMS-USED); vector-annotated parameters receive vectors, norm() is taken of vectors (C17.AFFINE-KINDS).'
 )
 NOT_DECIDED = "closest-point initialisation, circle radius/height, rotation angles (numerics)."
 ASSUMPTIONS = []
